@@ -242,6 +242,12 @@ fn flag_patterns() -> Vec<Node> {
         v.push(ast::cat(vec![ast::la(Node::FlagGroup("m".into(), Box::new(ast::cat(vec![Node::Assert(A::BigA), x.clone()])))), Node::Dot]));
         v.push(Node::FlagGroup("m".into(), Box::new(ast::cat(vec![ast::grp(x.clone()), lit("\n"), Node::Assert(A::BigA), Node::Backref(1)]))));
     }
+    // \h / \H inside classes
+    for c in ["[x\\H]", "[^\\H]", "[\\H]", "[x\\h]", "[^x\\h]", "[\\d\\H]"] {
+        v.push(Node::Raw(c.to_string(), 1));
+        v.push(ast::plus(Node::Raw(c.to_string(), 1)));
+        v.push(ast::cat(vec![ast::grp(Node::Raw(c.to_string(), 1)), Node::Backref(1)]));
+    }
     // \h and \e
     v.push(Node::Raw("\\h".into(), 1));
     v.push(ast::cat(vec![Node::Raw("\\h".into(), 1), lit("a")]));
@@ -261,7 +267,7 @@ pub fn run_c19(cx: &Ctx) -> i32 {
     let alphabet = vec!['a', 'A', 'b', '\n'];
     let max_len = 2;
     let texts = space::texts(&alphabet, max_len);
-    let hex_texts: Vec<String> = vec!["", "a", "f", "F", "g", "9", "\u{1b}", "\u{1b}\u{1b}a", "xa", "Ga"].into_iter().map(String::from).collect();
+    let hex_texts: Vec<String> = vec!["", "a", "f", "F", "g", "9", "\u{1b}", "\u{1b}\u{1b}a", "xa", "Ga", "^", "g^5", "x", "gg", "5g", "^^"].into_iter().map(String::from).collect();
     let tallies = par::run_workers(32, |_w, claimer| {
         engine::quiet_panics();
         engine::set_sweep_horizons(40_000, 5_000);
@@ -330,9 +336,15 @@ pub fn run_c19(cx: &Ctx) -> i32 {
             for (nm, r) in ast_respellings(node) {
                 variants.push((nm.to_string(), ast::to_pattern(&r), true));
             }
-            if has_raw {
+            if has_raw && !pattern.contains("[") {
                 let r = pattern.replace("\\h", "[0-9A-Fa-f]").replace("\\e", "\\x1B");
                 variants.push(("T5 \\h \\e expansions".into(), r, true));
+            }
+            // \h and \H inside a character class
+            for (a, b) in [("[x\\H]", "[x[^0-9A-Fa-f]]"), ("[^\\H]", "[^[^0-9A-Fa-f]]"), ("[\\H]", "[[^0-9A-Fa-f]]"), ("[x\\h]", "[x[0-9A-Fa-f]]"), ("[^x\\h]", "[^x[0-9A-Fa-f]]"), ("[\\d\\H]", "[\\d[^0-9A-Fa-f]]")] {
+                if pattern.contains(a) {
+                    variants.push(("T5 \\h \\H inside a class".into(), pattern.replace(a, b), true));
+                }
             }
             for (tname, spelled, cmp_tree) in variants {
                 // a "pair" variant compares two respellings with each other instead of with the base
